@@ -12,27 +12,27 @@ RULE = ('case = (order in {subset of a bit set, divisibility}, start element lis
         'the start list has two comparable elements or the history adds one; distinct = distinct case')
 _ALPHA = ('operation alphabet at a poset with n elements: leq(i,j) all pairs; descendants/ancestors/children/parents(i) '
           'all i; tops; bottoms; join([]), meet([]), join([i,j]), meet([i,j]) i<j; index(first); ==(reversed copy); '
-          'fill_up_caches; add(e, fill) for every absent e of the 8 subsets x fill in {True, False}; add(present); '
-          'del i all i; del n (IndexError); remove(first); remove(absent) (KeyError).  The last operation of a history '
-          'ranges over mutations + join/meet pairs + index + == only (a plain query in last position is part of the '
-          'full observation taken after the shorter history).')
+          'fill_up_caches; add(e, fill) for every absent e of the 8 subsets x fill in {True, False}; add(present) '
+          '(no-op); del i all i; del n (IndexError); remove(first); remove(absent) (KeyError).  The last operation of a '
+          'history ranges over the mutations only (including the no-op / failing ones, so query-only prefixes are '
+          'covered too); after it the full observation is taken (all leq pairs, the four relations of every index, '
+          'tops, bottoms, join/meet of everything and of every pair, index of every element, == reversed copy).')
 EXHAUSTIVE = {
     'quick': 'all histories of length <= 3 over every start set of <= 3 of the 8 subsets of a 3-set (one representative '
-             'per orbit of the atom permutations, elements listed ascending; descending too for length <= 2), cache on (cold) '
-             '/ cache on with children_dict (first operation a mutation, or length <= 2) / cache off (length <= 2); ' + _ALPHA,
-    'thorough': 'all histories of length <= 3 over every start set (all 93 sets of <= 3 subsets, ascending; orbit '
-                'representatives also descending), the three configurations as in quick; plus length 4 from the empty '
-                'poset and from the one-element poset [{}], cache on; plus start sets of 4 elements (orbit '
+             'per orbit of the atom permutations, elements listed ascending), cache on (cold); cache on with '
+             'children_dict and cache off: length <= 2; ' + _ALPHA,
+    'thorough': 'the quick scope over all 93 start sets of <= 3 subsets (ascending; orbit representatives also '
+                'descending), plus children_dict starts with length 3 (first operation a mutation), plus length 4 from '
+                'the empty poset and from the one-element poset [{}], cache on, plus start sets of 4 elements (orbit '
                 'representatives) with length <= 2; ' + _ALPHA,
 }
 EXPLANATION = ('order queries are pinned uniquely by Fresh, so implementation != Fresh is a property failure. Lean: '
-               'Fca.C09.history_independent_partial proves model = Fresh for every valid history from every state '
-               'satisfying Inv, EXCEPT that on a caching instance add(new element, fill_up_cache=True) is not covered '
-               'by the step theorems (the trace_element BFS + neighbour patching proof is not done); for that operation, '
-               'and for posets built from a children_dict, the driver runs the verified checker invCheck '
-               '(Fca.C09.inv_of_check) on the model state after every step, so on the explored histories the invariant '
-               'is certified state by state and the theorem applies to the continuation. Comparison of the private '
-               'caches with the model state is diagnostic only (histogram keys state:*)')
+               'Fca.C09.history_independent proves model = Fresh for every valid history (all queries, fill_up_*, add '
+               'with and without cache filling, del, remove, ==) from every state satisfying Inv, for every partial '
+               'order and every set-iteration order; Fca.C09.cache_transparent: cached = uncached. In addition the '
+               'driver runs the verified checker invCheck (Fca.C09.inv_of_check) on the model state after every step '
+               'and on every start state built from a children_dict. Comparison of the private caches with the model '
+               'state is diagnostic only (histogram keys state:*)')
 ASSUMPTIONS = ['start elements pairwise distinct; leq is a partial order on all elements used (subset of bit masks, '
                'divisibility of positive integers)',
                'index arguments of queries are in range and non-negative (documented API); histories containing an '
@@ -66,11 +66,18 @@ def next_elems(E, op):
     return E
 
 
-def obs_ops(n):
+def obs_ops(E):
+    n = len(E)
     out = [['leq', i, j] for i in range(n) for j in range(n)]
     for i in range(n):
         out += [[r, i] for r in REL]
     out += [['tops'], ['bottoms'], ['join', []], ['meet', []]]
+    if n <= 4:
+        for i in range(n):
+            for j in range(i + 1, n):
+                out += [['join', [i, j]], ['meet', [i, j]]]
+        out += [['index', x] for x in E]
+        out.append(['eq', list(E)[::-1]])
     return out
 
 
@@ -135,7 +142,7 @@ def dump_state(P):
 
 def observe(P, order, in_place=False):
     Q = P if in_place else copy.deepcopy(P)
-    return [apply_op(Q, o, order, None) for o in obs_ops(len(Q))]
+    return [apply_op(Q, o, order, None) for o in obs_ops([int(x) for x in Q.elements])]
 
 
 def impl(c):
@@ -196,8 +203,7 @@ def _first_divergence(c, io, rep):
                 if not sm.get('obs_eq', True):
                     return (k, 'obs', 'harness', f'after step {k} {op}: model observation != Fresh observation')
                 if si['obs'] != sm['obs']:
-                    n = len(next_elems_all(c, k))
-                    oo = obs_ops(n)
+                    oo = obs_ops(next_elems_all(c, k))
                     bad = [(o, a, b) for o, a, b in zip(oo, si['obs'], sm['obs']) if a != b][:4]
                     return (k, 'obs', 'property', f'after step {k} {op}: observation differs from a fresh poset: '
                             + '; '.join(f'{o}: impl {a} fresh {b}' for o, a, b in bad))
@@ -372,7 +378,7 @@ def alphabet(E, use_cache, last):
     if absent is not None:
         muts.append(['remove', absent])
     if last:
-        return muts + qs_special
+        return muts            # every query after the last mutation is part of the full observation
     qs = [['leq', i, j] for i in range(n) for j in range(n)]
     for i in range(n):
         qs += [[r, i] for r in REL]
@@ -408,23 +414,18 @@ COLD, WITHCD, NOCACHE = (True, False), (True, True), (False, False)
 
 def _exhaustive(tier, boost):
     thorough = tier == 'thorough' or boost
-    starts = []                      # (start list, enumerate length 3 too?)
-    for s in start_sets(3, reps_only=True):
-        starts.append((s, True))
-        if len(s) > 1:
-            starts.append((s[::-1], thorough))
+    starts = [s for s in start_sets(3, reps_only=True)]
     if thorough:
-        have = {tuple(s) for s, _ in starts}
-        for s in start_sets(3, reps_only=False):
-            if tuple(s) not in have:
-                starts.append((s, True))
-    for E, deep in starts:
+        starts += [s[::-1] for s in start_sets(3, reps_only=True) if len(s) > 1]
+        have = {tuple(s) for s in starts}
+        starts += [s for s in start_sets(3, reps_only=False) if tuple(s) not in have]
+    for E in starts:
         for L in (1, 2):
             yield from _exh(E, COLD, L)
             yield from _exh(E, WITHCD, L)
             yield from _exh(E, NOCACHE, L)
-        if deep:
-            yield from _exh(E, COLD, 3)
+        yield from _exh(E, COLD, 3)
+        if thorough:
             yield from _exh(E, WITHCD, 3, first_mutation=True)
     if thorough:
         for E in ([], [0]):          # (all start sets of <= 2 elements: 21 M histories, run once: no failure)
